@@ -49,7 +49,7 @@ class C18(framework.PropertyCheck):
         text = gen_trace.render_csv(cf) + ('\n' if case['nl'] else '')
         steps = [('loadcsv', 't0', text), ('eval', 'eorg', '(list SIGNALS MAX-INDEX INDEX)')]
         if case.get('history'):
-            steps = [('loadcsv', 'zz', 'Time [s],other\n0.5,1\n0.75,0\n1.5,1\n'), steps[0], ('unload', 'zz'), steps[1]]
+            steps = [('loadcsv', 'zz', 'Time [s],other\n0.5,1\n0.75,0\n1.5,1\n'), ('eval', 'eorg', '(list other MAX-INDEX TS)'), steps[0], ('unload', 'zz'), steps[1]]
         if case.get('failed_first'):
             steps = [('loadfail', 'q9', case['failed_first'])] + steps
         if case.get('unload_first'):
@@ -67,9 +67,9 @@ class C18(framework.PropertyCheck):
         if case.get('failed_first') or case.get('unload_first'):
             iobs = iobs[1:]
         if case.get('history'):
-            if len(iobs) < 3 or iobs[0] != ('ok',) or iobs[2] != ('ok',):
-                return {'what': 'loading / unloading the other capture failed', 'obs': iobs[:3]}
-            iobs = iobs[1:2] + iobs[3:]
+            if len(iobs) < 4 or iobs[0] != ('ok',) or iobs[3] != ('ok',):
+                return {'what': 'loading / unloading the other capture failed', 'obs': iobs[:4]}
+            iobs = iobs[2:3] + iobs[4:]
         if not iobs or iobs[0] != ('ok',):
             return {'what': 'CSV rejected', 'obs': iobs[:1]}
         want0 = ('L', True, (('L', False, tuple(('S', s) for s in names)), ('I', n - 1), ('I', 0)))
